@@ -35,7 +35,8 @@ def run(run):
     run.pmap("bk.move_check", bk.move_check, kn)
     run.pmap("bk.step_check", bk.step_check, [x for x in kn if x[0] >= 1])
     items = sweep.make_items(run, CFGS, ["localopt"], flags=(False,), light=heavy, heavy=heavy)
-    run.pmap("sweep.run_item", sweep.run_item, items, chunksize=1)
+    items += sweep.history_items(run, CFGS[:3], ["localopt"], 6 if run.thorough else 2, flags=(False,))
+    run.pmap("sweep.run_item", sweep.run_item, sweep.order_items(items), chunksize=1)
     run.extra["work_items"] = len(items)
     run.extra["stubs"] = sweep.install()
 
